@@ -246,7 +246,7 @@ B('fl-fd-set-before-lock', ['C02'], ['C02-R3'],
             self._lock(fd, block)
         except (IOError, OSError):
             os.close(fd)"""))
-B('fl-tl-released-before-os', ['C02', 'C12'], ['C02-R6', 'C12-R1'],
+B('fl-tl-released-before-os', ['C02'], ['C02-R6'],
   (F, """            try:
                 self._release()
             except:  # noqa""", """            try:
